@@ -74,7 +74,7 @@ PTRS = ["", "*", "&", "**", "*&", "* const", "* const *", "** const", "* const &
         "* const volatile", "* const volatile *", "* volatile * const", "* const volatile &"]
 CVS = ["", "const ", "volatile ", "const volatile ", "volatile const "]
 POSTCV = ["", " const", " volatile"]
-ARRS = ["", "[20]", "[N]", "[3][4]", "[N][2]", "[64/(4*2)]", "[N*(2+1)]", "[(N+1)*2]", "[60/(N/2)]", "[2*(N-3)]", "[N-(3-1)]", "[40/(2*2)][N]"]
+ARRS = ["", "[20]", "[N]", "[3][4]", "[2][3][4]", "[5][N][2]", "[N][2]", "[64/(4*2)]", "[N*(2+1)]", "[(N+1)*2]", "[60/(N/2)]", "[2*(N-3)]", "[N-(3-1)]", "[40/(2*2)][N]"]
 ATTRS = ["", " +intent(in)", " +intent(out)", " +rank(1)", " +dimension(n)", " +value", " +len(30)", " +hidden",
          " +intent(inout)+rank(2)", " +rank=1", " +name(other)", " +deref(raw)"]
 
@@ -214,6 +214,41 @@ def render_chunk(case):
         if not r.name and "(" in text:
             continue      # 'Class1()' outside its class (harvested text without its scope)
         stats["accepted"] += 1
+        # (0) rendering is an observation: producing the Fortran / bind(C) / C view of a declaration (what the other
+        # emitters of one Shroud run do, in an order the C++ emitter does not control) must leave its C and C++
+        # renderings and its recorded structure as they were
+        def _views(dd):
+            out = {}
+            for nm, fn in (("gen_decl", lambda: dd.gen_decl()), ("gen_arg_as_cxx", lambda: dd.gen_arg_as_cxx(with_template_args=True)),
+                           ("gen_arg_as_c", lambda: dd.gen_arg_as_c()), ("to_dict", lambda: repr(_norm(todict.to_dict(dd))))):
+                try:
+                    out[nm] = fn()
+                except Exception as e:
+                    out[nm] = "raises %s" % type(e).__name__
+            return out
+        nodes = [r] + list(r.params or [])
+        stats["rerender_checked"] = stats.get("rerender_checked", 0) + len(nodes)
+        for dd in nodes:
+            b0 = _views(dd)
+            changed = None
+            # judged after every single view (two calls of a view that flips something would cancel out)
+            for vn, fn in (("gen_arg_as_fortran", lambda: dd.gen_arg_as_fortran()), ("bind_c", lambda: dd.bind_c()),
+                           ("gen_arg_as_fortran(bindc)", lambda: dd.gen_arg_as_fortran(bindc=True)),
+                           ("gen_arg_as_c", lambda: dd.gen_arg_as_c()), ("gen_arg_as_cxx", lambda: dd.gen_arg_as_cxx()),
+                           ("gen_decl", lambda: dd.gen_decl())):
+                try:
+                    fn()
+                except Exception:
+                    continue        # a view that does not exist for this shape (e.g. Fortran for a function pointer)
+                a0 = _views(dd)
+                bad = [nm for nm in b0 if b0[nm] != a0[nm]]
+                if bad:
+                    changed = (vn, bad[0], b0[bad[0]], a0[bad[0]])
+                    break
+            if changed:
+                viol.append({"mech": "rendering-changes-declaration:%s-after-%s" % (changed[1], changed[0]),
+                             "detail": "%r: %s was %r; after %s was produced it is %r" % (text, changed[1], changed[2], changed[0], changed[3]),
+                             "case": {"decl": text, "scope": scope}})
         # (3) round trip
         has_default = r.init is not None or any(p.init is not None for p in (r.params or []))
         if not has_default:
